@@ -134,6 +134,7 @@ class Sys:
         self.first_peer_close_valid = None
         self.rec_len_at_first_valid_close = None
         self.peer_close_any = False
+        self.fed_texts = []          # payloads of the text messages the peer has sent, in order
         self.hs_done_len = 0
         self.hs_fed = False
         self.deferred = False        # aio: octets queued, not yet processed
@@ -280,6 +281,8 @@ class Sys:
                     self.notes.add("data_after_our_close")
                 if name == "closeThenMore":
                     self.notes.add("frames_behind_peer_close")
+                if name in ("text", "closeThenMore"):
+                    self.fed_texts.append(b"hi" if name == "text" else b"late")
                 if name.startswith("close"):
                     if not self.peer_close_any:
                         self.first_peer_close_valid = valid_close is not None
@@ -469,6 +472,12 @@ def monitors(s, ev):
         late = [e[0] for e in rec[s.rec_len_at_first_valid_close:] if e[0] in ("onMessage", "onPing", "onPong")]
         if late:
             bad.append(("delivery-after-peer-close-frame", str(late)))
+    # M5c whatever is delivered is what the peer sent: each delivered message is one of the peer's
+    # messages, intact, in order (also while closing)
+    got = [bytes(e[1]) for e in rec if e[0] == "onMessage"]
+    it = iter(s.fed_texts)
+    if not all(any(g == f for f in it) for g in got):
+        bad.append(("delivered-message-altered", "delivered %r, the peer sent %r" % (got, s.fed_texts)))
     # M6 is_closed
     import txaio
     if p.state == S_CLOSED and hasattr(p, "is_closed") and not txaio.is_called(p.is_closed):
